@@ -345,7 +345,7 @@ func (r *DeviceLocal) ProcessCmd(datagram model.DatagramType, remoteDevice api.D
 	} else {
 		errorMessage := "cmdClassifier may not be empty"
 
-		_ = remoteFeature.Device().Sender().ResultError(message.RequestHeader, destAddr, model.NewErrorType(model.ErrorNumberTypeDestinationUnknown, errorMessage))
+		_ = remoteFeature.Device().Sender().ResultError(message.RequestHeader, r.localAddress(destAddr), model.NewErrorType(model.ErrorNumberTypeDestinationUnknown, errorMessage))
 
 		return errors.New(errorMessage)
 	}
@@ -355,7 +355,7 @@ func (r *DeviceLocal) ProcessCmd(datagram model.DatagramType, remoteDevice api.D
 
 		// Don't send error responses for incoming result messages
 		if message.CmdClassifier != model.CmdClassifierTypeResult {
-			_ = remoteFeature.Device().Sender().ResultError(message.RequestHeader, destAddr, model.NewErrorType(model.ErrorNumberTypeDestinationUnknown, errorMessage))
+			_ = remoteFeature.Device().Sender().ResultError(message.RequestHeader, r.localAddress(destAddr), model.NewErrorType(model.ErrorNumberTypeDestinationUnknown, errorMessage))
 		}
 
 		return errors.New(errorMessage)
@@ -421,6 +421,17 @@ func (r *DeviceLocal) ProcessCmd(datagram model.DatagramType, remoteDevice api.D
 	}
 
 	return nil
+}
+
+// the addressed feature address with the device address of this device: the sender
+// address of a response to a datagram whose destination does not exist here
+// (the destination of the request may omit or misstate the device part)
+func (r *DeviceLocal) localAddress(address *model.FeatureAddressType) *model.FeatureAddressType {
+	return &model.FeatureAddressType{
+		Device:  r.Address(),
+		Entity:  address.Entity,
+		Feature: address.Feature,
+	}
 }
 
 func (r *DeviceLocal) NodeManagement() api.NodeManagementInterface {
